@@ -21,7 +21,7 @@ Definition evs1 : list event :=
 
 Example run1 : exists s, run c1 init evs1 = Some s /\ result s = Some (Raised (EChained 2%nat)) /\
                          errors s = [2%nat; 1%nat] /\ map snd (calls s) = [(2%nat, []); (3%nat, [3]); (1%nat, [1; 2])].
-Proof. exists (final c1 evs1). repeat split; vm_compute; reflexivity. Qed.
+Proof. exists (final c1 evs1). split; [|split; [|split]]; vm_compute; reflexivity. Qed.
 
 Example reach1 : exists s, reachable c1 s /\ result s = Some (Raised (EChained 2%nat)).
 Proof. exists (final c1 evs1). split; [exists evs1; vm_compute; reflexivity|vm_compute; reflexivity]. Qed.
@@ -34,7 +34,7 @@ Proof. exists (final c1 [MSpawn]). split; [exists [MSpawn]; vm_compute; reflexiv
 Definition c2 : cfg := mk_cfg [7; 5] (Some [(7, [1])]) [].
 Example run2 : exists s, run c2 init [MSpawn; TBegin 0; MSpawn] = Some s /\ result s = Some (Raised (EKey 1%nat)) /\
                          all_done c2 s = false.
-Proof. exists (final c2 [MSpawn; TBegin 0; MSpawn]). repeat split; vm_compute; reflexivity. Qed.
+Proof. exists (final c2 [MSpawn; TBegin 0; MSpawn]). split; [|split]; vm_compute; reflexivity. Qed.
 
 Example seq1 : sequential c1 = ([(2%nat, []); (1%nat, [1; 2])], Raised (EAction 1%nat)).
 Proof. vm_compute. reflexivity. Qed.
